@@ -232,6 +232,11 @@ def rule_one_path(ctx, px):
         ctx.ob(R, add.module.rel, f"{add.short} :: map[<the type>] = base_output_path / make_path(...)", False, detail, add.node.lineno)
 
     gi = px.func(COMMON, "IncludeGenerator.generate_include_filepart_list")
+    if gi.cls is not None:
+        import copy as _copy
+        gi_ = _copy.copy(gi)
+        gi_.node = pyfront.inline_value_calls(gi.node, {k_: m_.node for k_, m_ in gi.cls.methods.items()})
+        gi = gi_
     gps = _params(gi)
     calls = _calls(gi.node, "make_path")
     ok = len(calls) == 1
